@@ -339,4 +339,513 @@ theorem minCltv_spec (l : List Part) (m : Nat) :
   unfold minCltv
   exact List.min?_eq_some_iff
 
+/-- invariant of every reachable accumulator -/
+structure Inv (s : Mpp) : Prop where
+  /-- every held part arrived with the payment's onion fields -/
+  fields : ∀ p ∈ s.parts, p.total = s.total ∧ p.tag = s.tag ∧ p.evenTlv = s.evenTlv
+  /-- the parts of the last announced complete set (all marked with its amount `x`) come first and
+      are worth at most `x`; parts that arrived since are unmarked -/
+  order : ∃ x A B, s.parts = A ++ B ∧ (∀ p ∈ A, p.totalRecv = some x) ∧ (∀ p ∈ B, p.totalRecv = none) ∧
+    sumValue A ≤ x
+  /-- while a claim is pending nothing is held under this hash -/
+  claimingEmpty : s.claiming = true → s.parts = []
+
+theorem Inv.init : Inv Mpp.init :=
+  ⟨by simp [Mpp.init], ⟨0, [], [], by simp [Mpp.init, sumValue]⟩, by simp [Mpp.init]⟩
+
+theorem mem_sortParts {l : List Part} {p : Part} : p ∈ sortParts l ↔ p ∈ l := (sortParts_perm l).mem_iff
+
+/-- `stepPart` with the effective onion fields (those of the first part) named -/
+theorem stepPart_normal (s : Mpp) (p : Part) :
+    ∃ total tag ev, (s.parts = [] → total = p.total ∧ tag = p.tag ∧ ev = p.evenTlv) ∧
+      (s.parts ≠ [] → total = s.total ∧ tag = s.tag ∧ ev = s.evenTlv) ∧
+      stepPart s p =
+        if s.claiming then (s, [.failPart p.id])
+        else if p.tag ≠ tag ∨ p.total ≠ total ∨ p.evenTlv ≠ ev then (s, [.failPart p.id])
+        else if accIntended p.intended s.parts ≥ MAX_VALUE_MSAT then (s, [.failPart p.id])
+        else if accIntended p.intended s.parts - p.intended ≥ total then (s, [.failPart p.id])
+        else if accIntended p.intended s.parts ≥ total then
+          ({ s with parts := sortParts ((s.parts ++ [p]).map fun q => { q with totalRecv := some (sumValue (s.parts ++ [p])) }),
+                    total := total, tag := tag, evenTlv := ev },
+           [.claimable (sumValue (s.parts ++ [p]))
+              (claimDeadline ((minCltv (sortParts ((s.parts ++ [p]).map fun q =>
+                { q with totalRecv := some (sumValue (s.parts ++ [p])) }))).getD p.cltv))])
+        else ({ s with parts := s.parts ++ [p], total := total, tag := tag, evenTlv := ev }, []) := by
+  cases hs : s.parts with
+  | nil =>
+    refine ⟨p.total, p.tag, p.evenTlv, fun _ => ⟨rfl, rfl, rfl⟩, fun h => absurd rfl h, ?_⟩
+    simp only [stepPart, hs, List.isEmpty_nil, ↓reduceIte]
+  | cons q qs =>
+    refine ⟨s.total, s.tag, s.evenTlv, fun h => absurd h (List.cons_ne_nil _ _), fun _ => ⟨rfl, rfl, rfl⟩, ?_⟩
+    simp only [stepPart, hs, List.isEmpty_cons, Bool.false_eq_true, ↓reduceIte]
+
+theorem Inv.stepPart {s : Mpp} (h : Inv s) (p : Part) (hp : p.totalRecv = none) : Inv (stepPart s p).1 := by
+  obtain ⟨total, tag, ev, hfirst, hnot, heq⟩ := stepPart_normal s p
+  rw [heq]
+  have hfields : ∀ q ∈ s.parts ++ [p], q.total = total ∧ q.tag = tag ∧ q.evenTlv = ev →
+      True := fun _ _ _ => trivial
+  split
+  · exact h
+  · rename_i hcl
+    split
+    · exact h
+    · rename_i hchk
+      simp only [not_or, Decidable.not_not] at hchk
+      have hall : ∀ q ∈ s.parts ++ [p], q.total = total ∧ q.tag = tag ∧ q.evenTlv = ev := by
+        intro q hq
+        simp only [List.mem_append, List.mem_singleton] at hq
+        rcases hq with hq0 | rfl
+        · have hne : s.parts ≠ [] := by intro hs; rw [hs] at hq0; cases hq0
+          obtain ⟨e1, e2, e3⟩ := hnot hne
+          rw [e1, e2, e3]; exact h.fields q hq0
+        · exact ⟨hchk.2.1, hchk.1, hchk.2.2⟩
+      split
+      · exact h
+      · split
+        · exact h
+        · split
+          · -- complete
+            refine ⟨?_, ?_, ?_⟩
+            · intro q hq
+              simp only [mem_sortParts, List.mem_map] at hq
+              obtain ⟨q0, hq0, rfl⟩ := hq
+              exact hall q0 hq0
+            · refine ⟨sumValue (s.parts ++ [p]), _, [], (List.append_nil _).symm, ?_, by simp, ?_⟩
+              · intro q hq
+                simp only [mem_sortParts, List.mem_map] at hq
+                obtain ⟨q0, _, rfl⟩ := hq
+                rfl
+              · rw [sumValue_perm (sortParts_perm _), sumValue_setRecv]
+                exact Nat.le_refl _
+            · intro hc; simp only at hc; exact absurd hc hcl
+          · -- held
+            refine ⟨hall, ?_, ?_⟩
+            · obtain ⟨x, A, B, hAB, hA, hB, hle⟩ := h.order
+              refine ⟨x, A, B ++ [p], by simp only [hAB, List.append_assoc], hA, ?_, hle⟩
+              intro q hq
+              simp only [List.mem_append, List.mem_singleton] at hq
+              rcases hq with hq | rfl
+              · exact hB q hq
+              · exact hp
+            · intro hc; simp only at hc; exact absurd hc hcl
+
+theorem Inv.of_parts_nil {s : Mpp} (h : s.parts = []) : Inv s :=
+  ⟨by simp [h], ⟨0, [], [], by simp [h, sumValue]⟩, fun _ => h⟩
+
+theorem Inv.stepTick {s : Mpp} (h : Inv s) : Inv (stepTick s).1 := by
+  unfold InboundPay.stepTick
+  have hmap : Inv { s with parts := s.parts.map fun q => { q with ticks := q.ticks + 1 } } := by
+    refine ⟨?_, ?_, ?_⟩
+    · intro q hq
+      simp only [List.mem_map] at hq
+      obtain ⟨q0, hq0, rfl⟩ := hq
+      exact h.fields q0 hq0
+    · obtain ⟨x, A, B, hAB, hA, hB, hle⟩ := h.order
+      refine ⟨x, A.map (fun q => { q with ticks := q.ticks + 1 }), B.map (fun q => { q with ticks := q.ticks + 1 }),
+        by simp only [hAB, List.map_append], ?_, ?_, ?_⟩
+      · intro q hq; simp only [List.mem_map] at hq; obtain ⟨q0, hq0, rfl⟩ := hq; exact hA q0 hq0
+      · intro q hq; simp only [List.mem_map] at hq; obtain ⟨q0, hq0, rfl⟩ := hq; exact hB q0 hq0
+      · have : sumValue (A.map fun q => { q with ticks := q.ticks + 1 }) = sumValue A := by
+          simp [sumValue, List.map_map, Function.comp_def]
+        omega
+    · intro hc
+      have := h.claimingEmpty hc
+      simp only [this, List.map_nil]
+  split
+  · exact h
+  · simp only
+    split
+    · exact hmap
+    · split
+      · exact Inv.of_parts_nil rfl
+      · exact hmap
+
+theorem Inv.stepBlock {s : Mpp} (h : Inv s) (ht : Nat) : Inv (stepBlock s ht).1 := by
+  unfold InboundPay.stepBlock
+  refine ⟨?_, ?_, ?_⟩
+  · intro q hq
+    simp only [List.mem_filter] at hq
+    exact h.fields q hq.1
+  · obtain ⟨x, A, B, hAB, hA, hB, hle⟩ := h.order
+    refine ⟨x, A.filter (fun q => !mppOnchainTimeout ht q.cltv), B.filter (fun q => !mppOnchainTimeout ht q.cltv),
+      by simp only [hAB, List.filter_append], ?_, ?_, ?_⟩
+    · intro q hq; exact hA q (List.mem_filter.1 hq).1
+    · intro q hq; exact hB q (List.mem_filter.1 hq).1
+    · have := sumValue_filter_le A (fun q => !mppOnchainTimeout ht q.cltv); omega
+  · intro hc
+    have := h.claimingEmpty hc
+    simp only [this, List.filter_nil]
+
+theorem stepClaim_parts (s : Mpp) (known : Bool) : (stepClaim s known).1.parts = [] := by
+  unfold stepClaim
+  split
+  · rename_i h; simpa using h
+  · simp only
+    split
+    · rfl
+    · split
+      · rfl
+      · split
+        · rfl
+        · split <;> rfl
+
+theorem Inv.stepClaim {s : Mpp} (_h : Inv s) (known : Bool) : Inv (stepClaim s known).1 :=
+  Inv.of_parts_nil (stepClaim_parts s known)
+
+theorem Inv.step {s : Mpp} (h : Inv s) (op : Op) : Inv (step s op).1 := by
+  cases op with
+  | part id value intended total cltv tag ev => exact h.stepPart _ rfl
+  | tick => exact h.stepTick
+  | block ht => exact h.stepBlock ht
+  | claim known => exact h.stepClaim known
+  | claimDone => exact ⟨h.fields, h.order, fun hc => by simp [InboundPay.step] at hc⟩
+  | failBack => exact Inv.of_parts_nil rfl
+
+theorem Reachable.inv {s : Mpp} (h : Reachable s) : Inv s := by
+  induction h with
+  | init => exact Inv.init
+  | step op _ ih => exact ih.step op
+
+/-- the parts held after a completing `part` step -/
+def completedParts (s : Mpp) (p : Part) : List Part :=
+  sortParts ((s.parts ++ [p]).map fun q => { q with totalRecv := some (sumValue (s.parts ++ [p])) })
+
+/-- a `claimable` output of `stepPart` pins down the branch taken -/
+theorem stepPart_claimable (s : Mpp) (p : Part) (a d : Nat) (h : Out.claimable a d ∈ (stepPart s p).2) :
+    ∃ total tag ev, (s.parts ≠ [] → total = s.total ∧ tag = s.tag ∧ ev = s.evenTlv) ∧
+      s.claiming = false ∧ p.tag = tag ∧ p.total = total ∧ p.evenTlv = ev ∧
+      p.intended + sumIntended s.parts < MAX_VALUE_MSAT ∧ sumIntended s.parts < total ∧
+      total ≤ p.intended + sumIntended s.parts ∧
+      stepPart s p = ({ s with parts := completedParts s p, total := total, tag := tag, evenTlv := ev },
+        [.claimable a d]) ∧
+      a = sumValue (s.parts ++ [p]) ∧ d = claimDeadline ((minCltv (completedParts s p)).getD p.cltv) := by
+  obtain ⟨total, tag, ev, _, hnot, heq⟩ := stepPart_normal s p
+  rw [heq] at h ⊢
+  have hacc := accIntended_spec s.parts p.intended
+  split at h
+  · simp at h
+  · rename_i hcl
+    split at h
+    · simp at h
+    · rename_i hchk
+      simp only [not_or, Decidable.not_not] at hchk
+      split at h
+      · simp at h
+      · rename_i hmax
+        have hlt : accIntended p.intended s.parts < MAX_VALUE_MSAT := by omega
+        have hsum := hacc.2 hlt
+        split at h
+        · simp at h
+        · rename_i hdone
+          split at h
+          · rename_i hge
+            simp only [List.mem_singleton, Out.claimable.injEq] at h
+            obtain ⟨rfl, rfl⟩ := h
+            refine ⟨total, tag, ev, hnot, by simpa using hcl, hchk.1, hchk.2.1, hchk.2.2, by omega, by omega, by omega, ?_, rfl, rfl⟩
+            simp only [hcl, Bool.false_eq_true, ↓reduceIte, hchk, ne_eq, not_true_eq_false, or_self, hmax, hdone, hge, completedParts]
+          · simp at h
+
+theorem completedParts_perm (s : Mpp) (p : Part) :
+    (completedParts s p).Perm ((s.parts ++ [p]).map fun q => { q with totalRecv := some (sumValue (s.parts ++ [p])) }) :=
+  sortParts_perm _
+
+theorem sumIntended_completed (s : Mpp) (p : Part) : sumIntended (completedParts s p) = sumIntended s.parts + p.intended := by
+  rw [sumIntended_perm (completedParts_perm s p), sumIntended_setRecv, sumIntended_append]
+  simp [sumIntended]
+
+theorem sumValue_completed (s : Mpp) (p : Part) : sumValue (completedParts s p) = sumValue (s.parts ++ [p]) := by
+  rw [sumValue_perm (completedParts_perm s p), sumValue_setRecv]
+
+theorem mem_completed {s : Mpp} {p q : Part} (h : q ∈ completedParts s p) :
+    ∃ q0, (q0 ∈ s.parts ∨ q0 = p) ∧ q = { q0 with totalRecv := some (sumValue (s.parts ++ [p])) } := by
+  rw [(completedParts_perm s p).mem_iff] at h
+  simp only [List.mem_map, List.mem_append, List.mem_singleton] at h
+  obtain ⟨q0, hq0, rfl⟩ := h
+  exact ⟨q0, hq0, rfl⟩
+
+theorem completed_ne_nil (s : Mpp) (p : Part) : completedParts s p ≠ [] := by
+  intro h
+  have := (completedParts_perm s p).length_eq
+  rw [h] at this
+  simp at this
+
+theorem map_tick_ids (l : List Part) :
+    (l.map fun q => { q with ticks := q.ticks + 1 }).map (fun q => Out.failPart q.id) = l.map (fun q => Out.failPart q.id) := by
+  simp [List.map_map, Function.comp_def]
+
+/-- a timer tick does nothing visible, or fails every held part (then nothing is held) -/
+theorem stepTick_outs (s : Mpp) :
+    ((stepTick s).2 = [] ∧ (s.parts = [] ∨ s.total ≤ sumIntended s.parts ∨ ∀ p ∈ s.parts, p.ticks + 1 < MPP_TIMEOUT_TICKS)) ∨
+    ((stepTick s).2 = s.parts.map (fun q => Out.failPart q.id) ∧ (stepTick s).1.parts = [] ∧
+      s.parts ≠ [] ∧ sumIntended s.parts < s.total ∧ ∃ p ∈ s.parts, MPP_TIMEOUT_TICKS ≤ p.ticks + 1) := by
+  unfold stepTick
+  split
+  · rename_i h; left; exact ⟨rfl, Or.inl (by simpa using h)⟩
+  · rename_i hne
+    simp only [sumIntended_tick]
+    split
+    · rename_i hge; left; exact ⟨rfl, Or.inr (Or.inl hge)⟩
+    · rename_i hlt
+      split
+      · rename_i hto
+        right
+        refine ⟨map_tick_ids _, rfl, by simpa using hne, by omega, ?_⟩
+        simp only [List.any_map, List.any_eq_true, Function.comp_apply, decide_eq_true_eq] at hto
+        obtain ⟨q, hq, hq2⟩ := hto
+        exact ⟨q, hq, hq2⟩
+      · rename_i hto
+        left
+        refine ⟨rfl, Or.inr (Or.inr ?_)⟩
+        intro q hq
+        simp only [List.any_map, List.any_eq_true, Function.comp_apply, decide_eq_true_eq, not_exists, not_and] at hto
+        have := hto q hq
+        omega
+
+/-- every outcome of a claim -/
+theorem stepClaim_outs (s : Mpp) (known : Bool) :
+    (stepClaim s known).2 = [] ∨ (stepClaim s known).2 = [.inconsistent] ∨
+    (stepClaim s known).2 = s.parts.map (fun q => Out.failPart q.id) ∨
+    (stepClaim s known).2 = .inconsistent :: s.parts.map (fun q => Out.failPart q.id) ∨
+    (∃ amt, (stepClaim s known).2 = s.parts.map (fun q => Out.fulfilPart q.id) ++ [.claimed amt] ∧
+      claimLoop s.parts none 0 = (some amt, amt, true) ∧ (stepClaim s known).1.claiming = true ∧
+      s.parts ≠ [] ∧ (known = true ∨ s.evenTlv = false)) := by
+  unfold stepClaim
+  split
+  · left; rfl
+  · rename_i hne
+    simp only
+    split
+    · right; right; left; rfl
+    · rename_i htlv
+      rcases hloop : claimLoop s.parts none 0 with ⟨exp, amt, valid⟩
+      simp only
+      cases exp with
+      | none => cases valid <;> simp
+      | some e =>
+        simp only
+        split
+        · cases valid <;> simp
+        · rename_i heq
+          simp only [ne_eq, Decidable.not_not] at heq
+          subst heq
+          cases valid with
+          | false => simp
+          | true =>
+            right; right; right; right
+            refine ⟨amt, by simp, rfl, rfl, by simpa using hne, ?_⟩
+            cases known <;> cases hs : s.evenTlv <;> simp_all
+
+/-- only `part` steps announce a payment -/
+theorem claimable_only_from_part (s : Mpp) (op : Op) (a d : Nat) (h : Out.claimable a d ∈ (step s op).2) :
+    ∃ id value intended total cltv tag ev, op = .part id value intended total cltv tag ev := by
+  cases op with
+  | part id value intended total cltv tag ev => exact ⟨_, _, _, _, _, _, _, rfl⟩
+  | tick =>
+    simp only [step] at h
+    rcases stepTick_outs s with ⟨h1, _⟩ | ⟨h1, _⟩ <;> rw [h1] at h <;> simp at h
+  | block ht => simp [step, stepBlock] at h
+  | claim known =>
+    simp only [step] at h
+    rcases stepClaim_outs s known with h1 | h1 | h1 | h1 | ⟨amt, h1, _⟩ <;> rw [h1] at h <;> simp at h
+  | claimDone => simp [step] at h
+  | failBack => simp [step, stepFailBack] at h
+
+theorem claimLoop_somes (x : Nat) (A rest : List Part) (hA : ∀ p ∈ A, p.totalRecv = some x) (exp : Option Nat)
+    (hexp : exp = none ∨ exp = some x) (acc : Nat) (hne : A ≠ []) :
+    claimLoop (A ++ rest) exp acc = claimLoop rest (some x) (acc + sumValue A) := by
+  induction A generalizing exp acc with
+  | nil => exact absurd rfl hne
+  | cons p ps ih =>
+    have hp := hA p (List.mem_cons_self ..)
+    have hcond : (exp.isSome && exp != p.totalRecv) = false := by
+      rcases hexp with rfl | rfl <;> simp [hp]
+    simp only [List.cons_append, claimLoop]
+    rw [hcond]
+    simp only [Bool.false_eq_true, ↓reduceIte]
+    rw [hp]
+    cases ps with
+    | nil => simp [sumValue]
+    | cons q qs =>
+      rw [ih (fun r hr => hA r (List.mem_cons_of_mem _ hr)) (some x) (Or.inr rfl) _ (List.cons_ne_nil _ _)]
+      simp only [sumValue, List.map_cons, List.sum_cons, Nat.add_assoc]
+
+theorem claimLoop_nones (B : List Part) (hB : ∀ p ∈ B, p.totalRecv = none) (acc : Nat) :
+    claimLoop B none acc = (none, acc + sumValue B, true) := by
+  induction B generalizing acc with
+  | nil => simp [claimLoop, sumValue]
+  | cons p ps ih =>
+    have hp := hB p (List.mem_cons_self ..)
+    simp only [claimLoop, Option.isSome_none, Bool.false_and, Bool.false_eq_true, ↓reduceIte, hp]
+    rw [ih (fun r hr => hB r (List.mem_cons_of_mem _ hr))]
+    simp only [sumValue, List.map_cons, List.sum_cons]
+    congr 2; omega
+
+theorem claimLoop_some_none (x : Nat) (B : List Part) (hB : ∀ p ∈ B, p.totalRecv = none) (hne : B ≠ []) (acc : Nat) :
+    claimLoop B (some x) acc = (some x, acc, false) := by
+  cases B with
+  | nil => exact absurd rfl hne
+  | cons p ps =>
+    have hp := hB p (List.mem_cons_self ..)
+    simp [claimLoop, hp]
+
+/-- under the invariant a claim goes through only when every held part carries the announced
+    amount and the held parts are worth exactly that amount -/
+theorem claim_success_inv {s : Mpp} (h : Inv s) (amt : Nat) (hl : claimLoop s.parts none 0 = (some amt, amt, true)) :
+    (∀ p ∈ s.parts, p.totalRecv = some amt) ∧ sumValue s.parts = amt := by
+  obtain ⟨x, A, B, hAB, hA, hB, _⟩ := h.order
+  rw [hAB] at hl ⊢
+  by_cases hAe : A = []
+  · subst hAe
+    rw [List.nil_append, claimLoop_nones B hB] at hl
+    cases hl
+  · rw [claimLoop_somes x A B hA none (Or.inl rfl) 0 hAe] at hl
+    by_cases hBe : B = []
+    · subst hBe
+      simp only [claimLoop, Nat.zero_add, Prod.mk.injEq, Option.some.injEq, and_true] at hl
+      obtain ⟨rfl, h2⟩ := hl
+      simp only [List.append_nil]
+      exact ⟨hA, h2⟩
+    · rw [claimLoop_some_none x B hB hBe] at hl
+      simp at hl
+
+/-- a part arriving for a complete set is failed on its own and changes nothing -/
+theorem stepPart_late (s : Mpp) (p : Part) (hne : s.parts ≠ []) (hc : s.total ≤ sumIntended s.parts) :
+    stepPart s p = (s, [.failPart p.id]) := by
+  obtain ⟨total, tag, ev, _, hnot, heq⟩ := stepPart_normal s p
+  rw [heq]
+  obtain ⟨rfl, rfl, rfl⟩ := hnot hne
+  have hacc := accIntended_spec s.parts p.intended
+  split
+  · rfl
+  · split
+    · rfl
+    · split
+      · rfl
+      · rename_i hmax
+        have hlt : accIntended p.intended s.parts < MAX_VALUE_MSAT := by omega
+        have hsum := hacc.2 hlt
+        rw [if_pos (by omega)]
+
+theorem stepTick_complete (s : Mpp) (hne : s.parts ≠ []) (hc : s.total ≤ sumIntended s.parts) :
+    stepTick s = ({ s with parts := s.parts.map fun q => { q with ticks := q.ticks + 1 } }, []) := by
+  unfold stepTick
+  have : s.parts.isEmpty = false := by cases hs : s.parts <;> simp_all
+  simp only [this, Bool.false_eq_true, ↓reduceIte, sumIntended_tick]
+  rw [if_pos hc]
+
+theorem stepBlock_before (s : Mpp) (h : Nat) (hb : ∀ p ∈ s.parts, mppOnchainTimeout h p.cltv = false) :
+    stepBlock s h = (s, []) := by
+  unfold stepBlock
+  have h1 : s.parts.filter (fun q => mppOnchainTimeout h q.cltv) = [] := by
+    rw [List.filter_eq_nil_iff]; intro p hp; simp [hb p hp]
+  have h2 : s.parts.filter (fun q => !mppOnchainTimeout h q.cltv) = s.parts := by
+    rw [List.filter_eq_self]; intro p hp; simp [hb p hp]
+  rw [h1, h2]; rfl
+
+/-- the payment announced as `claimable a d` is still intact -/
+structure Ready (s : Mpp) (a d : Nat) : Prop where
+  nonempty : s.parts ≠ []
+  marked : ∀ p ∈ s.parts, p.totalRecv = some a
+  amount : sumValue s.parts = a
+  complete : s.total ≤ sumIntended s.parts
+  deadline : ∀ p ∈ s.parts, d ≤ claimDeadline p.cltv
+  notClaiming : s.claiming = false
+
+/-- ops that leave an announced payment alone: more parts, timer ticks, blocks below the deadline -/
+def Quiet (d : Nat) : Op → Prop
+  | .part .. => True
+  | .tick => True
+  | .block h => h < d
+  | .claimDone => True
+  | .claim _ => False
+  | .failBack => False
+
+def ids (s : Mpp) : List Nat := s.parts.map (·.id)
+
+/-- ids of the parts arriving in an op list -/
+def partIds : List Op → List Nat
+  | [] => []
+  | .part id .. :: ops => id :: partIds ops
+  | _ :: ops => partIds ops
+
+theorem claimDeadline_lt {h d c : Nat} (hd : d ≤ claimDeadline c) (hlt : h < d) : mppOnchainTimeout h c = false := by
+  simp only [claimDeadline, mppOnchainTimeout, decide_eq_false_iff_not] at *
+  omega
+
+theorem Ready.step_quiet {s : Mpp} {a d : Nat} (h : Ready s a d) (op : Op) (hq : Quiet d op) :
+    Ready (step s op).1 a d ∧ ids (step s op).1 = ids s ∧ (step s op).1.evenTlv = s.evenTlv ∧
+      (∀ o ∈ (step s op).2, ∃ i, o = .failPart i ∧ i ∈ partIds [op]) := by
+  cases op with
+  | part id value intended total cltv tag ev =>
+    simp only [step]
+    rw [stepPart_late s _ h.nonempty h.complete]
+    exact ⟨h, rfl, rfl, fun o ho => ⟨id, by simpa using ho, by simp [partIds]⟩⟩
+  | tick =>
+    simp only [step]
+    rw [stepTick_complete s h.nonempty h.complete]
+    refine ⟨⟨?_, ?_, ?_, ?_, ?_, h.notClaiming⟩, ?_, rfl, by simp⟩
+    · simpa using h.nonempty
+    · intro p hp; simp only [List.mem_map] at hp; obtain ⟨q, hq, rfl⟩ := hp; exact h.marked q hq
+    · have : sumValue (s.parts.map fun q => { q with ticks := q.ticks + 1 }) = sumValue s.parts := by
+        simp [sumValue, List.map_map, Function.comp_def]
+      simp only [this]; exact h.amount
+    · simp only [sumIntended_tick]; exact h.complete
+    · intro p hp; simp only [List.mem_map] at hp; obtain ⟨q, hq, rfl⟩ := hp; exact h.deadline q hq
+    · simp [ids, List.map_map, Function.comp_def]
+  | block ht =>
+    simp only [step]
+    rw [stepBlock_before s ht (fun p hp => claimDeadline_lt (h.deadline p hp) hq)]
+    exact ⟨h, rfl, rfl, by simp⟩
+  | claimDone =>
+    simp only [step]
+    exact ⟨⟨h.nonempty, h.marked, h.amount, h.complete, h.deadline, rfl⟩, by first | rfl | trivial, by first | rfl | trivial, by simp⟩
+  | claim known => exact absurd hq id
+  | failBack => exact absurd hq id
+
+theorem partIds_append (a b : List Op) : partIds (a ++ b) = partIds a ++ partIds b := by
+  induction a with
+  | nil => rfl
+  | cons o os ih => cases o <;> simp [partIds, ih]
+
+theorem Ready.run_quiet {s : Mpp} {a d : Nat} (h : Ready s a d) (ops : List Op) (hq : ∀ o ∈ ops, Quiet d o) :
+    Ready (run s ops).1 a d ∧ ids (run s ops).1 = ids s ∧ (run s ops).1.evenTlv = s.evenTlv ∧
+      (∀ o ∈ (run s ops).2, ∃ i, o = .failPart i ∧ i ∈ partIds ops) := by
+  induction ops generalizing s with
+  | nil => exact ⟨h, rfl, rfl, by simp [run]⟩
+  | cons op ops ih =>
+    obtain ⟨h1, h2, h3, h4⟩ := h.step_quiet op (hq op (List.mem_cons_self ..))
+    obtain ⟨g1, g2, g3, g4⟩ := ih h1 (fun o ho => hq o (List.mem_cons_of_mem _ ho))
+    simp only [run]
+    refine ⟨g1, g2.trans h2, g3.trans h3, ?_⟩
+    intro o ho
+    simp only [List.mem_append] at ho
+    have hpa := partIds_append [op] ops
+    simp only [List.singleton_append] at hpa
+    rcases ho with ho | ho
+    · obtain ⟨i, hi, hm⟩ := h4 o ho
+      exact ⟨i, hi, by rw [hpa]; exact List.mem_append_left _ hm⟩
+    · obtain ⟨i, hi, hm⟩ := g4 o ho
+      exact ⟨i, hi, by rw [hpa]; exact List.mem_append_right _ hm⟩
+
+/-- claiming an intact announced payment -/
+theorem Ready.claim {s : Mpp} {a d : Nat} (h : Ready s a d) (known : Bool) :
+    (known = true ∨ s.evenTlv = false →
+      stepClaim s known = ({ s with parts := [], claiming := true },
+        s.parts.map (fun q => Out.fulfilPart q.id) ++ [.claimed a])) ∧
+    (known = false ∧ s.evenTlv = true →
+      stepClaim s known = ({ s with parts := [] }, s.parts.map (fun q => Out.failPart q.id))) := by
+  have hloop : claimLoop s.parts none 0 = (some a, a, true) := by
+    have := claimLoop_somes a s.parts [] h.marked none (Or.inl rfl) 0 h.nonempty
+    rw [List.append_nil] at this
+    rw [this, h.amount]; simp [claimLoop]
+  have hne : s.parts.isEmpty = false := by cases hs : s.parts <;> simp_all [h.nonempty]
+  constructor
+  · intro hk
+    unfold stepClaim
+    have : (!known && s.evenTlv) = false := by rcases hk with rfl | hk <;> simp [*]
+    simp only [hne, Bool.false_eq_true, ↓reduceIte, this, hloop, ne_eq, not_true_eq_false]
+  · rintro ⟨rfl, hk⟩
+    unfold stepClaim
+    simp only [hne, Bool.false_eq_true, ↓reduceIte, Bool.not_false, hk, Bool.and_self]
+
 end Ldk.InboundPay
